@@ -879,7 +879,8 @@ class NetworkGraph(AbstractBaseIR):
                             _od = edge_ir.op_graph.nodes[_ok]
                             for _eq in _od.get('equations', []):
                                 _lhs, _rhs = (_s.strip() for _s in _eq.split('=', 1))
-                                expr_map[_lhs] = _subst(_rhs, expr_map)
+                                # parenthesise: the expression is substituted textually into later equations
+                                expr_map[_lhs] = f"({_subst(_rhs, expr_map)})"
                             last_out = _od.get('output')
 
                         final_expr = expr_map.get(last_out, last_out)
